@@ -7,6 +7,32 @@ import subprocess
 HERE = os.path.dirname(os.path.dirname(os.path.abspath(__file__)))
 
 CHECKS = {
+    "C04": dict(level="model_checking", engine="sched", design="5/C04",
+                technique="stateless model checking of the real runtime code with loom (DPOR, preemption-bounded for >2 threads) "
+                          "through a cfg-gated synchronisation shim",
+                text="11 scenarios of 2-4 registered threads (polls, heap accesses, native calls, simultaneous stop-the-world "
+                     "and collection requests, thread start, exit and join, re-armed barrier) run the real threads.rs / "
+                     "safepoint.rs / gc.rs::collect_garbage under every schedule loom generates (all schedules for the basic "
+                     "2-thread scenario, preemption bound 3-6 quick / 3-9 thorough otherwise); heap cells are loom-tracked so any "
+                     "access during the operation or without happens-before to it, any runtime assert, deadlock or livelock fails.",
+                note="trusted: loom's memory model and the shim's faithful forwarding; polls are modelled at harness level; "
+                     "std atomics outside the shim are not scheduling points"),
+    "C09": dict(level="model_checking", engine="sched", design="5/C09",
+                technique="loom model checking of Mutex/Condition interpreted from thread.dora over the real wait-list code; "
+                          "explicit-state BFS of the real wait table against a reference map",
+                text="10 scenarios (mutual exclusion with 2-3 threads, condition hand-off, notify_all, no stored permit, join "
+                     "visibility, bounded queue, lock objects moved by a stop-the-world collection while threads are queued) "
+                     "under all schedules (2 threads) / preemption bound 3 (quick) or 5 (thorough); the Dora side is interpreted "
+                     "from the current pkgs/std/thread.dora, the runtime side is the real code. The address-keyed wait table is "
+                     "explored breadth-first (insert/remove/lookup-absent/epoch actions) against a BTreeMap.",
+                note="atomic intrinsics are modelled as SeqCst RMWs; real OS scheduling of compiled programs is out of scope"),
+    "C12": dict(level="model_checking", engine="sched", design="5/C12",
+                technique="loom model checking of the real Terminator with 2-4 workers per enumerated publish pattern",
+                text="For every rooted forest over <= 3 (4 thorough) work items with every local/shared assignment of its "
+                     "edges (+ mark-bit diamonds), 2 workers under all schedules and 3-4 workers preemption-bounded run the "
+                     "marking worker loop against the real termination detector; termination is only ever observed with zero "
+                     "outstanding items, every item is processed exactly once, nobody sleeps forever or spins.",
+                note="the work pool (deques, injector, stealing) is abstracted to one shared stack; the detector is the real code"),
     "C06": dict(level="exploration", engine="seqmc", design="5/C06",
                 technique="bounded-exhaustive enumeration of a lexeme text space and of all single-token edits of "
                           "repository files, executed on the real lexer/parser/semantic analysis",
